@@ -219,7 +219,7 @@ func checkC15(c c15Case, ctx *vCtx) *vFailure {
 		r := vRunApp(vInvocation{Args: append(append([]string{}, global...), f.Args(args...)...)})
 		ctx.Run(1)
 		if r.Failed {
-			vFault("C15: %v %v failed on valid input: %s", global, args, r)
+			vViolate("C15: %v %v failed on valid input: %s", global, args, r)
 		}
 		return r.Stdout
 	}
